@@ -70,6 +70,10 @@ def run(lines, out, args):
         (in an order of its own) -- the parameter names are part of the public signature of both implementations"""
         spell[0] += 1
         k = spell[0] % 5
+        if names[0] == "required" and isinstance(a[0], (list, tuple)) and spell[0] % 3 == 0:
+            # `required` may be any iterable, a one-shot one included (a generator, `map(providedBy, objects)`): it is
+            # materialised once, and the tuple is what the cache key AND the uncached walk are made from
+            a = ((x for x in list(a[0])),) + tuple(a[1:]) if spell[0] % 2 else (iter(list(a[0])),) + tuple(a[1:])
         if k == 1:
             return fn(*a[:2], **dict(zip(names[2:], a[2:])))
         if k == 3:
